@@ -44,13 +44,13 @@ var corpus = [][]string{
 	{"mode default", "bw 1 5 g", "bw 2 - c", "bw 3 -3,9 s", "bw 4 5 h", "ctxstopped", "start", "workers", "waitstarted 1", "bw 5 2 c", "sd", "waitseen 1",
 		"go sdw", "go run", "sleep 20", "workers", "kick 1", "join", "isrunning", "isstopped", "ctxstopped", "bw 6 0 c", "start"},
 	// the variadic order: none given = 0, only the first of several counts
-	{"mode seq", "bw 1 - c", "bw 2 3,-7 c", "bw 3 -1,9 c", "bw 4 0,5 c", "start", "workers", "bw 5 - c", "bw 6 9,-9 c", "workers", "sdw", "seenlog"},
+	{"mode seq", "obs on", "bw 1 - c", "bw 2 3,-7 c", "bw 3 -1,9 c", "bw 4 0,5 c", "start", "workers", "bw 5 - c", "bw 6 9,-9 c", "workers", "sdw", "seenlog"},
 	// shapes of daemon_test.go
 	{"mode seq", "bw 0 0 c", "bw 1 1 c", "bw 2 2 c", "bw 3 3 c", "bw 4 4 c", "bw 5 5 c", "start", "workers", "sdw", "seenlog", "isrunning", "isstopped"},
 	{"mode seq", "bw 1 0 c", "bw 1 0 c", "start", "bw 1 0 c", "fin 1", "bw 1 0 c", "workers", "sdw", "seenlog", "bw 1 0 c"},
 	{"mode seq", "ctxstopped", "sdw", "isstopped", "ctxstopped", "bw 1 0 c", "start", "isrunning"},
 	// ties, negatives, gaps, early finishers, re-registration under another order
-	{"mode seq", "bw 1 -3 c", "bw 2 5 c", "bw 3 5 c", "bw 4 0 x", "bw 5 -3 c", "start", "workers", "fin 2", "bw 2 -7 c", "bw 6 9 c", "workers", "sdw", "seenlog"},
+	{"mode seq", "obs on", "bw 1 -3 c", "bw 2 5 c", "bw 3 5 c", "bw 4 0 x", "bw 5 -3 c", "start", "workers", "fin 2", "bw 2 -7 c", "bw 6 9 c", "workers", "sdw", "seenlog"},
 	// orders at the ends of int: MaxInt / MinInt with ties, next to small orders (differences overflow)
 	{"mode seq", "bw 1 9223372036854775807 c", "bw 2 -2 c", "bw 3 2 c", "bw 4 -9223372036854775808 c", "bw 5 9223372036854775807 c",
 		"bw 6 -9223372036854775807 c", "bw 7 9223372036854775806 c", "bw 8 -9223372036854775808 c", "start", "workers", "sdw", "seenlog"},
@@ -79,6 +79,11 @@ func orderTok(rng *hx.Rng, pool []int) string {
 
 func genSeq(rng *hx.Rng) []string {
 	s := []string{"mode seq"}
+	if rng.Chance(1, 2) {
+		// compare the observable state (running list, IsRunning, IsStopped) with the model after every op; the other half
+		// of the cases runs without the extra queries (a query with a side effect would otherwise hide or heal something)
+		s = append(s, "obs on")
+	}
 	kind := func() string {
 		if rng.Chance(1, 6) {
 			return "x"
